@@ -153,7 +153,14 @@ def generate(tier, seed, work, stats):
     for i in range(400 if tier == "quick" else 6000):
         c = base[(i * 13) % len(base)]
         cases.append(dict(kind="inter", rules=c["rules"], nts=c["nts"], idx=c["idx"], operand=ops[i % len(ops)], family="inter"))
-    return cases
+    # other start variables than the default "S", and a consumption rule listed twice
+    extra = []
+    for i, c in enumerate(cases):
+        if i % 6 == 1:
+            extra.append(dict(c, start="X0", family=c["family"] + "-renamed-start"))
+        if i % 15 == 4:
+            extra.append(dict(c, repeat_pop=True, family=c["family"] + "-repeated-consumption-rule"))
+    return cases + extra
 
 
 def mk_rules(rules):
@@ -179,11 +186,37 @@ def verdict(fn):
     return "exc:" + (r[1] if r[0] == "exc" else "Timeout")
 
 
+def renamed(case):
+    """The case with the start variable S renamed (the grammar object is then told its start variable), and / or with a
+    consumption rule listed twice."""
+    start = case.get("start", "S")
+    ren = lambda x: start if x == "S" else x
+    rules = []
+    for r in case["rules"]:
+        if r[0] == "end":
+            rules.append([r[0], ren(r[1]), r[2]])
+        elif r[0] == "dup":
+            rules.append([r[0], ren(r[1]), ren(r[2]), ren(r[3])])
+        elif r[0] == "push":
+            rules.append([r[0], ren(r[1]), ren(r[2]), r[3]])
+        else:
+            rules.append([r[0], r[1], ren(r[2]), ren(r[3])])
+    if case.get("repeat_pop"):
+        pops = [r for r in rules if r[0] == "pop"]
+        if pops:
+            rules = rules + [list(pops[0])]
+    return dict(case, rules=rules, nts=[ren(x) for x in case["nts"]]), start
+
+
 def replay(case):
     from harness import fa, guard
     import pyformlang.regular_expression      # IndexedGrammar.intersection refers to pyformlang.regular_expression lazily
-    from pyformlang.indexed_grammar import Rules, IndexedGrammar
-    G = {"start": "S", "nts": case["nts"], "idx": case["idx"], "rules": case["rules"]}
+    from pyformlang.indexed_grammar import Rules, IndexedGrammar as _IG
+    case, start = renamed(case)
+
+    def IndexedGrammar(rules):
+        return _IG(rules) if start == "S" else _IG(rules, start)
+    G = {"start": start, "nts": case["nts"], "idx": case["idx"], "rules": case["rules"]}
     if case["kind"] == "inter":
         ccalls, _ = fa.concrete(case["operand"]["calls"], "int", "ab")
         a, _ = fa.build(case["operand"]["fkind"], ccalls)
@@ -191,8 +224,7 @@ def replay(case):
         # the automaton reads the raw terminal "a": project symbols untagged for the product
         A = dict(A, symbols=["a" if s == "s:a" else s for s in A["symbols"]],
                  delta=[[p, "a" if s == "s:a" else s, q] for p, s, q in A["delta"]])
-        ig = IndexedGrammar(Rules(mk_rules(case["rules"])))
-        r = guard.call(lambda: ig.intersection(a), timeout=5.0)
+        r = guard.call(lambda: IndexedGrammar(Rules(mk_rules(case["rules"]))).intersection(a), timeout=5.0)
         ev = {"op": "ig_intersection", "G": G, "A": A}
         if r[0] == "ok":
             v = verdict(r[1].is_empty)
